@@ -1,5 +1,6 @@
 \* quick exhaustive config: 3 replicas (n1 step by step, n2/n3 Ready-atomic), log <= 2, 1 election, 1 crash,
-\* async apply queue of 1, both state machine flavours.   measured: see checks/C12.json / report
+\* async apply queue of 1, both state machine flavours.
+\* measured 2026-09-22: 44,038 distinct states, 64,494 generated, depth 59, 2 min 11 s (6 workers, box at load 60)
 SPECIFICATION Spec
 CONSTANTS
   Node = {n1, n2, n3}
